@@ -86,6 +86,11 @@ def _code_nb(outs, source='x = 1\n', minor=2):
             'cells': [{'cell_type': 'code', 'execution_count': None, 'metadata': {}, 'source': source, 'outputs': outs}]}
 
 
+def _with_id(nb):
+    for i, c in enumerate(nb['cells']): c['id'] = 'cell-%d' % i
+    return nb
+
+
 def _stream(t):
     return {'output_type': 'stream', 'name': 'stdout', 'text': t}
 
@@ -104,6 +109,8 @@ def corpus_triples():
          'r': _code_nb([_stream('a\n'), {'output_type': 'display_data', 'data': {'text/plain': 'R'}, 'metadata': {}}]), 'src': 'corpus:outputs-both-append'},
         {'b': _code_nb([], 'a\nb\nc\n'), 'l': _code_nb([], 'b\nc\n'), 'r': _code_nb([], 'a\nb\n'), 'src': 'corpus:source-both-delete'},
         {'b': _code_nb([], 'a\n'), 'l': _code_nb([], ''), 'r': _code_nb([], 'a\nb\n'), 'src': 'corpus:source-empty-vs-append'},
+        {'b': _with_id(_code_nb([], 'a\nb\n', 5)), 'l': _with_id(_code_nb([], '', 5)), 'r': _with_id(_code_nb([], 'a\nb\nc\n', 5)), 'src': 'corpus:source-emptied-vs-edit-same-id'},
+        {'b': _with_id(_code_nb([], 'a\nb\n', 5)), 'l': _with_id(_code_nb([], 'a\nX\n', 5)), 'r': _with_id(_code_nb([], '', 5)), 'src': 'corpus:source-edit-vs-emptied-same-id'},
     ]
     cdir = os.path.join(core.VERIF, 'corpus', 'C03')
     if os.path.isdir(cdir):
@@ -249,7 +256,7 @@ def crafted_triples(r, n, gennb):
     for i in range(n):
         b = gennb.gen_notebook(r, ncells=r.choice([1, 2, 3, 4]))
         l = copy.deepcopy(b); rr = copy.deepcopy(b)
-        kind = ['append_outputs', 'add_attachment', 'add_metadata', 'similar_insert_attachments', 'append_outputs_one_edit'][i % 5]
+        kind = ['append_outputs', 'add_attachment', 'add_metadata', 'similar_insert_attachments', 'append_outputs_one_edit', 'insert_blocks', 'empty_source_vs_edit', 'minor_both', 'same_insert_plus_delete'][i % 9]
         code = [j for j, c in enumerate(b['cells']) if c['cell_type'] == 'code']
         text = [j for j, c in enumerate(b['cells']) if c['cell_type'] in ('markdown', 'raw')]
         if kind.startswith('append_outputs') and code:
@@ -266,6 +273,37 @@ def crafted_triples(r, n, gennb):
         elif kind == 'add_metadata' and b['cells']:
             j = r.randrange(len(b['cells'])); key = r.choice(['newkey', 'tags2', 'k'])
             l['cells'][j]['metadata'][key] = r.choice([1, 'a', [1], {'x': 1}]); rr['cells'][j]['metadata'][key] = r.choice([2, 'b', [2], {'x': 2}])
+        elif kind == 'empty_source_vs_edit' and b['cells']:
+            j = r.randrange(len(b['cells'])); c = b['cells'][j]
+            if not c['source']:
+                for nb in (b, l, rr): nb['cells'][j]['source'] = gennb.gen_source(r, c['cell_type'], 3)
+            e, k = (l, rr) if r.random() < 0.5 else (rr, l)
+            e['cells'][j]['source'] = ''
+            k['cells'][j]['source'] = gennb.edit_source_text(r, b['cells'][j]['source'], c['cell_type'])
+        elif kind == 'minor_both':
+            # both sides save with a different, newer minor version (cells without ids: valid for minors < 5)
+            b = gennb.gen_notebook(r, minor=r.choice([0, 1, 2]), ncells=r.choice([1, 2]))
+            l = copy.deepcopy(b); rr = copy.deepcopy(b)
+            l['nbformat_minor'] = 3; rr['nbformat_minor'] = 4
+            if b['cells']: l['cells'][0]['source'] = gennb.edit_source_text(r, b['cells'][0]['source'], b['cells'][0]['cell_type'])
+        elif kind == 'same_insert_plus_delete' and b['cells']:
+            # both insert the same (or an extended) run at a position; one or both also delete the base cell that follows
+            pos = r.randrange(len(b['cells'])); used = gennb.used_ids(b); minor = b['nbformat_minor']
+            run = [gennb.gen_cell(r, minor, used) for _ in range(r.choice([1, 1, 2]))]
+            extra = [gennb.gen_cell(r, minor, used)] if r.random() < 0.4 else []
+            l['cells'][pos:pos] = copy.deepcopy(run); rr['cells'][pos:pos] = copy.deepcopy(run) + extra
+            del l['cells'][pos + len(run)]
+            if r.random() < 0.3: del rr['cells'][pos + len(run) + len(extra)]
+        elif kind == 'insert_blocks':
+            # both sides insert runs at the same position: dissimilar blocks of unequal length, then a similar pair, then maybe more
+            pos = r.randint(0, len(b['cells'])); used = gennb.used_ids(b); minor = b['nbformat_minor']
+            def fresh(k=None): return gennb.gen_cell(r, minor, used, kind=k)
+            la = [fresh() for _ in range(r.choice([0, 1, 2, 3]))]; ra = [fresh() for _ in range(r.choice([0, 1, 2]))]
+            s1 = fresh(r.choice(['code', 'markdown'])); s2 = copy.deepcopy(s1)
+            if 'id' in s2: s2['id'] = gennb.gen_id(r, used)
+            s2['source'] = gennb.edit_source_text(r, s2['source'], s2['cell_type'], 'tiny')
+            lz = [fresh() for _ in range(r.choice([0, 0, 1]))]; rz = [fresh() for _ in range(r.choice([0, 0, 1, 2]))]
+            l['cells'][pos:pos] = la + [s1] + lz; rr['cells'][pos:pos] = ra + [s2] + rz
         else:
             pos = r.randint(0, len(b['cells']))
             c1 = {'cell_type': 'markdown', 'metadata': {}, 'source': gennb.gen_source(r, 'markdown', 3), 'attachments': {'p.png': gennb.gen_mimebundle(r, attachment=True)}}
@@ -395,3 +433,113 @@ def dispatcher_correspondence(chk, sb):
         chk.broken_obligation('correspondence:dispatchers', {'dispatcher': obs[i]['d'], 'strategy': obs[i]['s'], 'observed': obs[i],
                                                              'note': 'the real dispatcher does not do what the arm selected by the generated chain predicts'})
     return len(obs), len(bad)
+
+
+# ------------------------------------------------------------------ executed tie of the clear-all arm model
+def coq_key(k):
+    return '(KI %d)' % k if isinstance(k, int) else '(KS %s)' % coq_str(k)
+
+
+def coq_json(v):
+    if v is None: return 'JNull'
+    if isinstance(v, bool): return '(JBool %s)' % ('true' if v else 'false')
+    if isinstance(v, int): return '(JInt (%d)%%Z)' % v
+    if isinstance(v, str): return '(JStr %s)' % coq_str(v)
+    if isinstance(v, list): return '(JArr [%s])' % '; '.join(coq_json(x) for x in v)
+    if isinstance(v, dict): return '(JObj [%s])' % '; '.join('(%s, %s)' % (coq_str(k), coq_json(x)) for k, x in sorted(v.items()))
+    raise ValueError(v)
+
+
+def coq_entry(e):
+    op = e['op']; k = coq_key(e['key'])
+    if op == 'add': return '(DAdd %s %s)' % (k, coq_json(e['value']))
+    if op == 'remove': return '(DRemove %s)' % k
+    if op == 'replace': return '(DReplace %s %s)' % (k, coq_json(e['value']))
+    if op == 'addrange': return '(DAddRange %s (VList [%s]))' % (k, '; '.join(coq_json(x) for x in e['valuelist']))
+    if op == 'removerange': return '(DRemoveRange %s %d)' % (k, e['length'])
+    if op == 'patch': return '(DPatch %s [%s])' % (k, '; '.join(coq_entry(x) for x in e['diff']))
+    raise ValueError(op)
+
+
+def coq_odiff(d):
+    return 'None' if d is None else '(Some [%s])' % '; '.join(coq_entry(e) for e in d)
+
+
+def coq_decision(d):
+    return '(mkDec [%s] (action_of_name %s) %s %s %s %s %s None)' % (
+        '; '.join(coq_key(k) for k in d['common_path']), coq_str(d['action']), 'true' if d['conflict'] else 'false',
+        coq_odiff(d.get('local_diff')), coq_odiff(d.get('remote_diff')),
+        coq_odiff(d['custom_diff']) if 'custom_diff' in d else 'None', coq_opt(d.get('strategy')))
+
+
+def gen_clear_all_cases(r, n):
+    """builders as they reach the outputs list of a cell: conflicts on the list, decisions one or two levels below (int keys
+    on list items, str keys on dicts), None / [] / non-empty diffs, strategy marks, sometimes a foreign path"""
+    cases = []
+    def ops(level_is_list, m):
+        out = []
+        for _ in range(m):
+            if level_is_list:
+                k = r.randint(0, 2)
+                out.append(r.choice([{'op': 'addrange', 'key': k, 'valuelist': [r.randint(0, 5)]}, {'op': 'removerange', 'key': k, 'length': 1},
+                                     {'op': 'patch', 'key': k, 'diff': [{'op': 'replace', 'key': r.choice('ab'), 'value': r.randint(0, 5)}]}]))
+            else:
+                k = r.choice(['a', 'b', 'metadata'])
+                out.append(r.choice([{'op': 'replace', 'key': k, 'value': r.randint(0, 5)}, {'op': 'add', 'key': k, 'value': 's'}, {'op': 'remove', 'key': k},
+                                     {'op': 'patch', 'key': k, 'diff': [{'op': 'replace', 'key': 'x', 'value': 1}]}]))
+        return out
+    for i in range(n):
+        path = ['cells', r.randint(0, 1), 'outputs']
+        decs = []
+        for j in range(r.choice([1, 2, 2, 3, 4])):
+            extra = r.choice([[], [], [r.randint(0, 2)], [r.randint(0, 2), r.choice(['metadata', 'data'])]])
+            cp = path + extra
+            if r.random() < 0.05: cp = ['cells', 7, 'outputs'] + extra
+            is_list = len(extra) == 0
+            def side():
+                c = r.random()
+                if c < 0.12: return None
+                if c < 0.2: return []
+                return ops(is_list, r.choice([1, 1, 2]))
+            d = {'common_path': cp, 'action': r.choice(['base', 'local', 'remote', 'custom', 'either']), 'conflict': (j == 0) or r.random() < 0.4,
+                 'local_diff': side(), 'remote_diff': side()}
+            if d['action'] == 'custom': d['custom_diff'] = ops(is_list, 1)
+            if r.random() < 0.3: d['strategy'] = r.choice(['record-conflict', 'inline-outputs'])
+            decs.append(d)
+        cases.append({'path': path, 'base': [{}] * r.randint(0, 3), 'decisions': decs})
+    return cases
+
+
+def clear_all_correspondence(chk, sb, n=120):
+    # first the two witnesses of StrategiesProofs.clear_all_refuted_pinned (w_none, w_mixed), replayed on the implementation
+    wp = ['cells', 0, 'outputs']
+    wc = {'common_path': wp, 'action': 'base', 'conflict': True, 'local_diff': [{'op': 'addrange', 'key': 1, 'valuelist': [1]}],
+          'remote_diff': [{'op': 'addrange', 'key': 1, 'valuelist': [2]}]}
+    witnesses = [
+        {'path': wp, 'base': [{}, {}], 'decisions': [wc, {'common_path': wp + [0], 'action': 'remote', 'conflict': False, 'local_diff': None,
+                                                           'remote_diff': [{'op': 'replace', 'key': 'a', 'value': 3}]}]},
+        {'path': wp, 'base': [{}, {}], 'decisions': [wc, {'common_path': wp + [0, 'metadata'], 'action': 'custom', 'conflict': True,
+                                                           'local_diff': [{'op': 'replace', 'key': 'a', 'value': 2}], 'remote_diff': [{'op': 'replace', 'key': 'a', 'value': 3}],
+                                                           'custom_diff': [{'op': 'add', 'key': 'nbdime-conflicts', 'value': {}}], 'strategy': 'record-conflict'}]}]
+    cases = witnesses + gen_clear_all_cases(chk.rng, n)
+    res = run(sb, [{'op': 'clear_all', 'cases': cases}], shards=1)[0]
+    if 'ok' not in res:
+        chk.broken_obligation('correspondence:clear-all', {'runner': res}); return 0, 0
+    terms = []
+    for c, o in zip(cases, res['ok']):
+        obs = '(inl %s)' % coq_str(o['err']) if 'err' in o else '(inr [%s])' % '; '.join(coq_decision(d) for d in o['ok'])
+        terms.append('([%s], [%s], [%s], %s)' % ('; '.join(coq_key(k) for k in c['path']), '; '.join(coq_json(x) for x in c['base']),
+                                               '; '.join(coq_decision(d) for d in c['decisions']), obs))
+    text = ('From Coq Require Import List NArith ZArith String.\nFrom NB Require Import Base.Json Base.Res Diff.DiffFormat Diff.Codec Merge.SortKey Merge.Decisions Merge.StrategyBase Gen.Strategies Merge.StrategyTable Merge.Strategies.\n'
+            'Import ListNotations.\nDefinition cases : list (path * list json * builder * (pystr + builder)) :=\n [%s].\nEval vm_compute in (clear_all_mismatches 0 cases).\n' % ';\n  '.join(terms))
+    ok, out = run_cases_v(text)
+    bad = parse_nat_list(out) if ok else None
+    if bad is None:
+        chk.broken_obligation('correspondence:clear-all', {'coqc': out[-800:]}); return 0, 0
+    for i in bad[:3]:
+        chk.broken_obligation('correspondence:clear-all', {'case': cases[i], 'observed': res['ok'][i],
+                                                           'note': 'Strategies.clear_all_arm (variant %s) disagrees with the real clear-all arm' % 'generated'})
+    hist = {}
+    for o in res['ok']: hist[o.get('err', 'ok')] = hist.get(o.get('err', 'ok'), 0) + 1
+    chk.cov['clear_all_outcomes'] = hist
+    return len(cases), len(bad)
